@@ -307,6 +307,14 @@ class BaseGridSearch(BaseForecaster):
         self._is_fitted = True
         return self
 
+    def _get_fitted_component_forecasters(self):
+        """The refitted best forecaster (so that a composite this tuner is part of can
+        restore its cutoff after rolling forecasts)."""
+        forecaster = getattr(self, "best_forecaster_", None)
+        if forecaster is not None and getattr(forecaster, "is_fitted", False):
+            return [forecaster]
+        return []
+
     @property
     def cutoff(self):
         """The time point at which to make forecasts
